@@ -31,6 +31,8 @@ def jobs(prop, tier, seed):
     todo += [("union", pid) for pid in pools.ids("union", tier) if pid not in data_ids]
     for pool, pid in todo:
         spec, _ = pools.get(pool, pid)
+        if pid == "DiscSubRec":
+            continue  # both discriminator findings at once on the same definition (lone subclass + in-union): neither witness predicate can arbitrate
         if any(s.k == "obj" and any(f.fall_back for f in s.a) for s in walk(spec)):
             continue  # fall_back_on_default metadata is not in the type space of C06
         optsets = [{}]
